@@ -9,14 +9,17 @@ FUNCTIONS = ["paramiko.packet.Packetizer.send_message", "paramiko.packet.Packeti
              "paramiko.packet.Packetizer.read_message", "paramiko.packet.Packetizer.read_all",
              "paramiko.packet.Packetizer.write_all", "paramiko.packet.Packetizer._inc_iv_counter",
              "paramiko.packet.Packetizer.set_outbound_cipher", "paramiko.packet.Packetizer.set_inbound_cipher"]
+FUNCTIONS += ["paramiko.compress.ZlibCompressor.__call__", "paramiko.compress.ZlibDecompressor.__call__"]
 STUBS = ["block cipher: position-dependent XOR key stream with symbolic key bytes (length preserving, invertible; sender and "
          "receiver engines advance independently, as two CTR states do)",
          "AES-GCM: ciphertext = plaintext xor k, tag = uninterpreted function of (iv, ciphertext, aad) realised as a recorder; a "
          "decrypt whose (iv, ciphertext, aad, tag) is not proved equal to an encrypt raises InvalidTag",
          "compute_hmac: uninterpreted function realised as a recorder (fresh 64-byte symbolic digest per distinct argument)",
-         "compression: stateful invertible codec (counter byte + data) standing in for zlib; os.urandom: fresh symbolic bytes",
+         "zlib (underneath the real paramiko.compress wrappers): contract model - records [counter]+data, compress() emits all or "
+         "nothing (solver's choice), flush(SYNC/FULL/FINISH) emits what is pending, decompress(data, max_length) honours "
+         "max_length and keeps the rest in unconsumed_tail; os.urandom: fresh symbolic bytes",
          "socket: in-memory wire; struct model"]
-ASSUMPTIONS = ["cipher/MAC/compression mathematics is abstracted by the stubs above (real AES/HMAC/zlib are outside the claim)",
+ASSUMPTIONS = ["cipher/MAC/compression mathematics is abstracted by the stubs above (real AES/HMAC/DEFLATE are outside the claim)",
                "the packetizer sees a cipher suite only through (block size, MAC size, etm, aead, sdctr): all combinations are run",
                "sequences of <=2 (quick) / <=3 (thorough) messages, payload 1..N symbolic bytes, optional key switch between messages, "
                "starting sequence numbers symbolic over the full 32-bit range (wrap included)"]
@@ -26,21 +29,67 @@ EXPLANATION = ("Payload bytes, key-stream bytes, padding bytes, digests and star
 MODES = ["none", "classic", "etm", "aead"]
 
 
-class _Codec:
-    """zlib stand-in: output = [counter] + data, stateful across packets"""
+class _ZlibModel:
+    """zlib's documented contract, put in place of the C library underneath the REAL paramiko.compress wrappers.
+    The stream is a sequence of records [counter byte] + data (stateful, invertible, detects loss/reordering/merging of
+    compressed packets).  compressobj.compress() may emit all, or nothing, of what it was given (the solver chooses);
+    flush(Z_SYNC_FLUSH / Z_FULL_FLUSH / Z_FINISH) emits everything still pending, any other mode nothing.
+    decompressobj.decompress(data, max_length) returns at most max_length bytes when max_length > 0 (the rest stays in
+    unconsumed_tail, as documented), everything otherwise."""
+    Z_NO_FLUSH, Z_PARTIAL_FLUSH, Z_SYNC_FLUSH, Z_FULL_FLUSH, Z_FINISH = 0, 1, 2, 3, 4
+    Z_DEFAULT_COMPRESSION, DEFLATED, MAX_WBITS, DEF_MEM_LEVEL = -1, 8, 15, 8
+    error = ValueError
 
-    def __init__(self):
-        self.n = 0
+    def __init__(self, ctx):
+        self.ctx = ctx
 
-    def compress(self, data):
-        self.n = (self.n + 1) & 0xFF
-        return P.cat(bytes([self.n]), data)
+    def compressobj(self, *a, **kw):
+        ctx = self.ctx
 
-    def decompress(self, data):
-        self.n = (self.n + 1) & 0xFF
-        if not bool(lift(data[0]) == self.n):
-            raise ValueError("compression stream out of sync")
-        return data[1:]
+        class C:
+            def __init__(self):
+                self.n, self.pending, self.k = 0, None, 0
+
+            def compress(self, data):
+                self.n = (self.n + 1) & 0xFF
+                rec = P.cat(bytes([self.n]), data)
+                self.k += 1
+                if len(data) < 64 and ctx.flag("zlib.compress()-emits-its-output-at-once#%d" % self.k):
+                    return rec
+                self.pending = rec if self.pending is None else P.cat(self.pending, rec)
+                return b""
+
+            def flush(self, mode=4):
+                if mode not in (2, 3, 4) or self.pending is None:
+                    return b""
+                out, self.pending = self.pending, None
+                return out
+        return C()
+
+    def decompressobj(self, *a, **kw):
+        class D:
+            def __init__(self):
+                self.n = 0
+                self.unconsumed_tail = b""
+                self.unused_data = b""
+
+            def decompress(self, data, max_length=0):
+                if len(data) == 0:
+                    return b""
+                self.n = (self.n + 1) & 0xFF
+                if not bool(lift(data[0]) == self.n):
+                    raise ValueError("compression stream out of sync")
+                out = data[1:]
+                if max_length and len(out) > max_length:
+                    out, self.unconsumed_tail = out[:max_length], out[max_length:]
+                return out
+        return D()
+
+
+def _compressors(ctx):
+    """the real wrappers of paramiko/compress.py over the zlib contract model"""
+    import paramiko.compress as PC
+    return PC.ZlibCompressor(), PC.ZlibDecompressor()
 
 
 class _Msg:
@@ -102,14 +151,18 @@ def stream_case(mode, nmsgs, maxlen, frag=False, compress=False, macs=(12, 20, 3
         gcmlog = []
         seq0 = ctx.int("start_seqno", 0, 2 ** 32 - 1)
         ctx.prefer = [term_of(lift(seq0) >= 2 ** 32 - 2)]
-        with P.pkt_env(ctx, mac):
+        import contextlib
+        import paramiko.compress as PC
+        from sx.stubs import patched
+        zenv = patched([(PC, "zlib", _ZlibModel(ctx))]) if compress else contextlib.nullcontext()
+        with zenv, P.pkt_env(ctx, mac):
             tx._Packetizer__sequence_number_out = seq0
             rx._Packetizer__sequence_number_in = seq0
             _install(ctx, tx, rx, mode, bs, macsize, 0, gcmlog)
             if compress:
-                c1, c2 = _Codec(), _Codec()
-                tx.set_outbound_compressor(c1.compress)
-                rx.set_inbound_compressor(c2.decompress)
+                c1, c2 = _compressors(ctx)
+                tx.set_outbound_compressor(c1)
+                rx.set_inbound_compressor(c2)
             sent = []
             switch_at = ctx.choice("key_switch_before_message", [None] + list(range(1, nmsgs))) if nmsgs > 1 else None
             got = []
@@ -119,11 +172,15 @@ def stream_case(mode, nmsgs, maxlen, frag=False, compress=False, macs=(12, 20, 3
                     _install(ctx, tx, rx, mode if mode != "none" else "classic", bs, macsize or 20, 1, gcmlog)
                     if compress:
                         # with the new keys both ends start a fresh compression stream (what the transport does)
-                        c3, c4 = _Codec(), _Codec()
-                        tx.set_outbound_compressor(c3.compress)
-                        rx.set_inbound_compressor(c4.decompress)
+                        c3, c4 = _compressors(ctx)
+                        tx.set_outbound_compressor(c3)
+                        rx.set_inbound_compressor(c4)
                 n = ctx.choice("len(payload%d)" % i, lens(bs) if lens else range(1, (maxlen or 2 * bs + 2) + 1))
-                pl = ctx.bytes("payload%d" % i, n)
+                if n > 4096:
+                    # a large packet: symbolic type byte, head and tail, fixed filler in between
+                    pl = P.cat(ctx.bytes("payload%d.head" % i, 3), b"\x5a" * (n - 6), ctx.bytes("payload%d.tail" % i, 3))
+                else:
+                    pl = ctx.bytes("payload%d" % i, n)
                 sent.append(pl)
                 tx.send_message(_Msg(pl))
                 if not batch:
@@ -176,7 +233,11 @@ def cases(tier):
     cs.append(stream_case("etm", 1, 1, frag=True, macs=(12,), timeouts=3, bss=(8,)))
     cs.append(stream_case("classic", 1, 2, macs=(12,), bss=(8,), partial_sends=3))
     cs.append(stream_case("etm", 2, None, compress=True, macs=(32,), lens=lambda bs: [1, bs - 4]))
+    # payloads at and beyond 2^15 / 2^16 / 2^17 bytes through the real compress.py wrappers (no cipher: the bytes are fixed filler
+    # between symbolic ends, what is being decided is that nothing is cut, kept back or merged)
+    cs.append(stream_case("none", 1, None, compress=True, lens=lambda bs: [5, 32768 + 9, 65536 + 9, 131072 + 9]))
     if not q:
         cs += [stream_case(m, 3, None, macs=(20,), lens=lambda bs: [1, bs - 4, bs + 3]) for m in MODES]
         cs += [stream_case("classic", 2, None, compress=True, macs=(12, 64), lens=few)]
+        cs += [stream_case("none", 2, None, compress=True, lens=lambda bs: [5, 65536 + 9])]
     return cs
